@@ -473,6 +473,7 @@ def kcenters_job(N, mode, k=None, warm=0, tri=False, entry='function', shortcut=
             if init0:
                 ini = [int(ev(model, v)) if isinstance(v, SVal) else int(v) for v in init0]
                 kw['init_centers'] = [np.array([float(vals[v])]) for v in ini] if data else [np.int64(v) for v in ini]
+            ini_args0 = [np.array(a, copy=True) for a in kw['init_centers']] if init0 else None
             inputs = {'N': N, 'D': [[float(x) for x in row] for row in T], 'dist_cutoff': float(cut) if cut is not None else None,
                       'n_clusters': kwargs.get('n_clusters', 'default'), 'init_centers': ini, 'entry': entry,
                       'mode': mode, 'use_triangle_inequality': shortcut}
@@ -513,6 +514,9 @@ def kcenters_job(N, mode, k=None, warm=0, tri=False, entry='function', shortcut=
                 bad += run_oracle(g)
             if not np.array_equal(Xc, Xc0):
                 bad.append('input-data-modified')
+            if init0 and (len(kw['init_centers']) != len(init0) or
+                          any(not np.array_equal(np.asarray(a), np.asarray(b)) for a, b in zip(kw['init_centers'], ini_args0))):
+                bad.append('init-centers-modified')
             if r2 is not None:
                 c2 = _concrete_out(r2, sc)
                 if c2 != co:
@@ -547,10 +551,11 @@ def kcenters_job(N, mode, k=None, warm=0, tri=False, entry='function', shortcut=
             obs += g
         obs.append(('input-data-unmodified', conj([a == b for a, b in zip(X.cells(), X0.cells())])))
         if init_snap is not None:
-            obs.append(('init-centers-unmodified', conj([x == y for a, b in zip(kwargs['init_centers'], init_snap)
-                                                         for x, y in zip(a.cells(), b)])))
+            obs.append(('init-centers-unmodified', len(kwargs['init_centers']) == len(init_snap) and
+                        conj([x == y for a, b in zip(kwargs['init_centers'], init_snap) for x, y in zip(a.cells(), b)])))
         elif init0:
-            obs.append(('init-centers-unmodified', conj([a == b for a, b in zip(kwargs['init_centers'], init0)])))
+            obs.append(('init-centers-unmodified', len(kwargs['init_centers']) == len(init0) and
+                        conj([a == b for a, b in zip(kwargs['init_centers'], init0)])))
         if res2 is not None:
             same = [a == b for a, b in zip(res.center_indices, res2.center_indices)]
             same += [a == b for a, b in zip(cells(res.assignments), cells(res2.assignments))]
